@@ -286,6 +286,9 @@ func hostport(s string) (host, port string) {
 		return "", ""
 	}
 	n := strings.LastIndexByte(s, ':')
+	if n < 0 {
+		return s, ""
+	}
 	return s[:n], s[n+1:]
 }
 
